@@ -282,6 +282,42 @@ fn engine_prestate(terms: &[Term], checks: u32, tier: Tier) -> Vec<Item> {
     out
 }
 
+/// collects whose *output* type is zero-sized, 136 bytes (wider than a cache line) or 64 KiB: `.map(..)` into that type
+/// appended to the chain; all parameter kinds (Auto, Exact, Min), sequential and parallel
+fn engine_outtype(checks: u32, tier: Tier, with_zst: bool) -> Vec<Item> {
+    let th = tier == Tier::Thorough;
+    let mut out = Vec::new();
+    let terms = [
+        Term::ZCollect, Term::ZCollectVec, Term::ZCollectX, Term::ZIntoSplit, Term::ZIntoVec, Term::WCollect, Term::WCollectVec, Term::WCollectX, Term::WIntoVec, Term::HCollect, Term::HCollectVec,
+        Term::HCollectX,
+    ];
+    for (src, known) in [(Src::SVec, true), (Src::PVec, true), (Src::SIter, false)] {
+        for cid in chains::TOK_SUBSET {
+            for t in terms {
+                if !src.supports(cid) || !term_ok(src, cid, t) || (t.is_zst() && !with_zst) {
+                    continue;
+                }
+                for n in [0usize, 1, 5] {
+                    for (w, cs) in [(2usize, CsSet::N(1)), (3, CsSet::N(2)), (1, CsSet::Keep), (2, CsSet::Keep), (2, CsSet::Min(2)), (3, CsSet::Min(1))] {
+                        if !th && matches!(cs, CsSet::Min(_)) && n != 5 {
+                            continue;
+                        }
+                        let mut c = par(case(src, n, chains::CHAINS[cid], t), w, cs);
+                        c.known = known;
+                        for mc in mask_variants(&c, false) {
+                            out.push(item(mc.clone(), Plan::base_rr(), checks));
+                            if w > 1 && n > 1 && matches!(cs, CsSet::N(_)) {
+                                out.push(item(mc, Plan::db(1), checks));
+                            }
+                        }
+                    }
+                }
+            }
+        }
+    }
+    out
+}
+
 /// the computation is built and run inside a closure of another parallel computation (on a worker thread of it)
 fn engine_nested(terms: &[Term], checks: u32, tier: Tier) -> Vec<Item> {
     let th = tier == Tier::Thorough;
@@ -477,6 +513,9 @@ fn expansion_sweep(terms: &[Term], checks: u32, tier: Tier, seq_only: bool) -> V
 fn all_units() -> Vec<(Src, usize)> {
     let mut v = Vec::new();
     for (s, _) in hcore::case::ALL_SRC.iter() {
+        if *s == Src::PRangeMax {
+            continue; // practically endless: only in the explicit C10 items
+        }
         for cid in 0..chains::N_CHAINS {
             if s.supports(cid) {
                 v.push((*s, cid));
@@ -684,28 +723,7 @@ pub fn items(prop: &str, tier: Tier) -> Vec<Item> {
             out.extend(engine_bigitem(&[Term::CollectVec, Term::Collect, Term::IntoVec], CK_RESULT, tier, &["", "M", "F", "X", "O"]));
             out.extend(engine_nested(&[Term::CollectVec, Term::Collect], CK_RESULT, tier));
             out.extend(engine_prestate(&[Term::CollectVec, Term::Collect, Term::IntoVec], CK_RESULT, tier));
-            // zero-sized output type (`.map(|_| ())` appended): capacities of usize::MAX, pointer arithmetic with size 0
-            for (src, known) in [(Src::SVec, true), (Src::PVec, true), (Src::SIter, false)] {
-                for cid in chains::TOK_SUBSET {
-                    for t in [Term::ZCollect, Term::ZCollectVec, Term::ZCollectX, Term::ZIntoSplit, Term::ZIntoVec] {
-                        if !src.supports(cid) || !term_ok(src, cid, t) {
-                            continue;
-                        }
-                        for n in [0usize, 1, 5] {
-                            for (w, cs) in [(2usize, CsSet::N(1)), (3, CsSet::N(2)), (1, CsSet::Keep), (2, CsSet::Keep)] {
-                                let mut c = par(case(src, n, chains::CHAINS[cid], t), w, cs);
-                                c.known = known;
-                                for mc in mask_variants(&c, false) {
-                                    out.push(item(mc.clone(), Plan::base_rr(), CK_RESULT));
-                                    if w > 1 && n > 1 {
-                                        out.push(item(mc, Plan::db(1), CK_RESULT));
-                                    }
-                                }
-                            }
-                        }
-                    }
-                }
-            }
+            out.extend(engine_outtype(CK_RESULT, tier, true));
             out.extend(engine_fine(&[Term::CollectVec, Term::Collect], CK_RESULT, tier, &KC4));
             out.extend(engine_e(&[Term::CollectVec, Term::Collect, Term::IntoVec], CK_RESULT, tier, &[], &[]));
         }
@@ -1322,6 +1340,21 @@ pub fn items(prop: &str, tier: Tier) -> Vec<Item> {
                     }
                 }
             }
+            // a range whose end is usize::MAX used as an unbounded source
+            for ch in ["", "M", "F"] {
+                for t in [Term::Find, Term::Any, Term::First] {
+                    for (w, cs) in [(2usize, CsSet::N(1)), (3, CsSet::N(1)), (4, CsSet::N(1)), (4, CsSet::N(2)), (3, CsSet::Keep)] {
+                        let mut c = par(case(Src::PRangeMax, 0, ch, t), w, cs);
+                        c.endless = true;
+                        c.pmask = 1 << 3;
+                        if t == Term::First && ch == "F" {
+                            c.fmask[0] = 1 << 2;
+                        }
+                        out.push(item(c.clone(), fair(Plan::pb(1), w), ck));
+                        out.push(item(c, fair(Plan::db(2), w), ck));
+                    }
+                }
+            }
             // lazily produced flat_map expansions (a child exists only once `next()` asked for it), finite and endless:
             // the search stops *at* the match - an expansion that never ends always holds one. Sequential mode: exactly
             // the children a lazy std chain asks for; parallel mode: every worker ends (bounded-fair interleavings).
@@ -1828,6 +1861,8 @@ pub fn items(prop: &str, tier: Tier) -> Vec<Item> {
         "C15" => {
             let ck = CK_RESULT | CK_VS_SEQ;
             out.push(Item { case: case(Src::SVec, 0, "", Term::Build), plan: Plan::base_np(), checks: CK_FN_SWEEP });
+            // (zero-sized outputs are judged in C01, where finding F9 is recorded)
+            out.extend(engine_outtype(ck, tier, false));
             // sampled large lengths (300 .. 5000) with Auto / large / odd chunk sizes and up to 16 threads
             out.extend(engine_big(&[Term::CollectVec, Term::Count, Term::Find], ck, tier, if th { &["", "M", "MF", "OF", "XF"] } else { &["M", "MF", "XF"] }));
             let terms = [Term::CollectVec, Term::Collect, Term::CollectX, Term::IntoVec, Term::Count, Term::Reduce, Term::Find, Term::First, Term::ForEach, Term::Any];
